@@ -39,6 +39,13 @@ IDS = ["00", "01", "a", "apiRule", "deleteAll", "all", "", 'a"b', "a\\b", "x\ny"
        "api", "ApiRule", " apiRule", "a/b", "日本", "\U0001F600", "\x7f", "a'b", "{\"k\":1}", "error", "deleted", "x-1"]
 HOT_IDS = ["00", "01", "a", "apiRule", "deleteAll", "all", "", 'a"b', "stream/x"]
 STREAMS = ["stream/x", "/stream/x", "video", "deleteAll", "/deleteAll", "", "all", "//x", "api", "stream/y", 's"q', "/"]
+# near-reserved ids (validate-vs-normalise): blank / slash / case variants of the reserved and protected ids and of ordinary ids --
+# all ordinary, distinct ids on the unchanged tree (only a stream name loses ONE leading "/", before agg's reserved-id guard)
+NEAR_IDS = ["/deleteAll", " deleteAll", "deleteAll ", "\tdeleteAll", "deleteAll\n", "DeleteAll", "deleteall", "/apiRule", "apiRule ",
+            "apirule", "APIRULE", " all", "all ", "All", "/all", " 00", "00 ", "/a", "A", "deleteAll" * 30]
+IDS += NEAR_IDS
+HOT_IDS += ["/deleteAll", " deleteAll", "/apiRule"]
+STREAMS += [" deleteAll", "deleteAll ", "DeleteAll", "//deleteAll", " /deleteAll", " stream/x", "stream/x ", "Stream/x"]
 FEEDS = ["video0", "audio0", "", "a\"b", "stream/x", "é"]
 RAW_STRS = [b'"a\xffb"', b'"\xc3"', b'"a\nb"', b'"\\ud800"', b'"\\q"', b'"\\u00zz"', b"'single'", b'"\\u0000"', b'"\\/"', b'"unterminated']
 WRONG = [b"null", b"5", b"-0.5e3", b"true", b"false", b"{}", b"[]", b'["add"]', b'{"a":1}', b"[[[]]]"]
@@ -465,6 +472,9 @@ class VwApiMode(vlib.Mode):
                 fails.append(("stuck", f"{self.pretty(l)} -> no answer within 10 s ({o[:60]})")); break
             cur = (lst[0], lst[1])
             D = parse_listing(lst[0])
+            if hx("deleteAll") in D or hx("deleteAll") in parse_listing(lst[1]):
+                fails.append(("reserved-id-listed", f"{self.pretty(l)}: a rule is stored / listed under the reserved id deleteAll "
+                              f"(deleting it by that id deletes everything): {lst[0][:120]} {lst[1][:120]}")); break
             if f[0] == "start":
                 api = unhx(f[1])
                 must_have = api != b""
